@@ -1,15 +1,25 @@
 #!/usr/bin/env python3
-"""Regenerated files of C11: coq/Gen/AstCodec.v, the PyMini translation of the source text of
-pygls/workspace/position_codec.py (harness/gen_ast.py, fail-closed).  Run by `make setup` and, through
-C11.regenerate, on every check."""
+"""Regenerated files of C11: coq/Gen/AstCodec.v (the PyMini translation of the source text of
+pygls/workspace/position_codec.py) and coq/Gen/AstDoc.v (of TextDocument in pygls/workspace/text_document.py,
+whose offset_at_position / word_at_position belong to C11), by harness/gen_ast.py (fail-closed).  Run by
+`make setup` and, through C11.regenerate, on every check."""
 import os, sys
 sys.path.insert(0, os.path.dirname(os.path.abspath(__file__)))
 import gen_ast
 
 
 def main():
-    return gen_ast.gen_codec()
+    """both translations are attempted; the first failure is raised afterwards"""
+    outs, err = [], None
+    for g in (gen_ast.gen_codec, gen_ast.gen_doc):
+        try:
+            outs.append(g())
+        except Exception as e:          # the file has been poisoned by gen_ast
+            err = err or e
+    if err is not None:
+        raise err
+    return outs
 
 
 if __name__ == "__main__":
-    print("gen_c11:", os.path.relpath(main(), gen_ast.ROOT))
+    print("gen_c11:", " ".join(os.path.relpath(o, gen_ast.ROOT) for o in main()))
